@@ -1111,7 +1111,9 @@ class FileBuilder:
         finally:
             operation.is_finished = True
             self._append_suboperation(operation)
-        return operation.return_value
+
+        # Return a copy, so that the caller can't alter the cache entry
+        return copy.deepcopy(operation.return_value)
 
     def _noneable_file_comparison_result(self, filename, file_comparison):
         """Return the result of the specified file comparison.
